@@ -1,7 +1,269 @@
-import SpsdkVerif.Model.Bimg
-namespace SpsdkVerif.C14
-open SpsdkVerif SpsdkVerif.Bimg SpsdkVerif.Generated
+/-
+C14 — Bootable image: segments land at the device offsets and come back on parse.
 
-theorem layouts_resolve : ∀ l ∈ BimgTables.layouts, (resolve l).isSome = true := by decide
+Model: Model/Bimg.lean (hand-written, tied to spsdk/image/bootable_image/{bimg,segments}.py by harness/props/C14.py),
+       Model/BinImage.lean (BinaryImage, C16), Generated/BimgTables.lean (every (family, revision, memory type) row of the
+       bootable_image feature of the device database + the class constants of the Segment* classes; regenerated on every run).
+Helper lemmas: Proofs/Bimg.lean.
+-/
+import SpsdkVerif.Model.Bimg
+import SpsdkVerif.Model.BimgSpec
+import SpsdkVerif.Proofs.Bimg
+
+namespace SpsdkVerif.C14
+open SpsdkVerif SpsdkVerif.Misc SpsdkVerif.BinImg SpsdkVerif.Bimg SpsdkVerif.Generated
+
+/-! ## 1. Every generated table row is well formed (`descOK`, defined in Proofs/Bimg.lean next to the lemmas that use it)
+
+`descOK d` says: the first segment is static; alignments are positive; static offsets strictly increase; a dynamic
+segment is the last entry and directly follows a static application segment; dynamic segments are never INIT segments;
+the fill pattern is zeros or ones and belongs to every segment's IMAGE_PATTERNS; the fixed-size window of every static
+segment ends before the next static offset; "take the whole rest" parsers (MBI, HAB, SB2.1, SB3.1) are last; boot
+headers precede application segments and there is a static application segment; every static offset is a multiple of
+every dynamic alignment; no segment class is unknown to the model; the FCB tag is 4 bytes and is not padding. -/
+
+theorem table_wf : ∀ l ∈ BimgTables.layouts, (resolve l).any descOK = true := by
+  decide +kernel
+
+/-- every (family, revision, memory type) row points to one of those layouts -/
+theorem rows_covered : ∀ r ∈ BimgTables.rows, r.layout < BimgTables.layouts.length := by
+  decide +kernel
+
+/-- the class constants the fixed-size parsers of the model rely on -/
+theorem kinds_fixed_sizes :
+    ∀ k ∈ BimgTables.kinds, (parserOf k.parser = .imageVersionAp → k.size = 4) ∧
+      (parserOf k.parser = .fcb → 4 ≤ k.size) ∧ (parserOf k.parser = .xmcd → 0 < k.size) ∧
+      ((parserOf k.parser = .raw ∧ k.bootHeader = true) → 0 < k.size) ∧
+      ((parserOf k.parser = .greedy ∨ parserOf k.parser = .ahab ∨ parserOf k.parser = .sb) → k.size < 0 ∧ k.bootHeader = false) := by
+  decide +kernel
+
+/-- the documented segment kinds are there with their documented constants
+    (label, SIZE, OFFSET_ALIGNMENT, INIT_SEGMENT, BOOT_HEADER): key blob 256, FCB 512 / 768 (XSPI), image version words 4,
+    key store 2048, BEE headers 512, XMCD 512; containers of variable size; the secondary container set floats on a
+    1 KiB grid; an image may start at the FCB or at the application container -/
+def specKinds : List (String × Int × Int × Bool × Bool) := [
+  ("keyblob", 256, 1, false, true), ("fcb", 512, 1, true, true), ("fcb_xspi", 768, 1, true, true),
+  ("image_version", 4, 1, false, true), ("image_version_ap", 4, 1, false, true), ("keystore", 2048, 1, false, true),
+  ("bee_header_0", 512, 1, false, true), ("bee_header_1", 512, 1, false, true), ("xmcd", 512, 1, false, true),
+  ("mbi", -1, 1, true, false), ("hab_container", -1, 1, true, false), ("ahab_container", -1, 1, true, false),
+  ("primary_image_container_set", -1, 1, true, false), ("secondary_image_container_set", -1, 1024, false, false),
+  ("sb21", -1, 1, true, false), ("sb31", -1, 1, true, false)]
+
+theorem kinds_spec : ∀ k ∈ specKinds,
+    k ∈ BimgTables.kinds.map (fun g => (g.label, g.size, g.align, g.initSegment, g.bootHeader)) := by
+  decide +kernel
+
+/-! ## 2. Init offset selection and exclusion -/
+
+/-- the setter answers 0 for 0 and otherwise the closest static segment offset at or above the request -/
+theorem setInit_spec (segs : List Seg) (req : Int) (m : Nat) (h : setInit segs req = .ok m) :
+    (req = 0 ∧ m = 0) ∨
+    (0 < req ∧ m ∈ statics segs ∧ req ≤ (m : Int) ∧ ∀ o ∈ statics segs, req ≤ (o : Int) → m ≤ o) := by
+  exact Bimg.setInit_spec' segs req m h
+
+/-- … and refuses exactly the negative requests and those above every static offset -/
+theorem setInit_error (segs : List Seg) (req : Int) :
+    (∃ e, setInit segs req = .error e) ↔ (req < 0 ∨ (0 < req ∧ ∀ o ∈ statics segs, (o : Int) < req)) := by
+  exact Bimg.setInit_error' segs req
+
+/-- a segment is excluded exactly when it is static and lies before the init offset (dynamic segments never are) -/
+theorem excluded_iff (init : Nat) (s : Seg) : excluded init s = true ↔ ∃ p, s.pos = some p ∧ p < init := by
+  exact Bimg.excluded_iff' init s
+
+/-! ## 3. Offsets -/
+
+/-- static segment: table offset − init offset -/
+theorem offset_static (init : Nat) (slots : List Slot) (i : Nat) (s : Slot) (p : Nat)
+    (hs : slots[i]? = some s) (hp : s.seg.pos = some p) (hex : excluded init s.seg = false) :
+    segOffset init slots i = .ok ((p : Int) - init) := by
+  exact Bimg.offset_static' init slots i s p hs hp hex
+
+/-- dynamic segment: the aligned end of its predecessor in the table (offset of the predecessor inside the full image
+    `a`, its length `t.len`), minus the init offset -/
+theorem offset_dynamic (init : Nat) (slots : List Slot) (i : Nat) (t s : Slot) (a : Nat)
+    (ht : slots[i]? = some t) (hs : slots[i + 1]? = some s) (hp : s.seg.pos = none)
+    (ha : (absOffsets none slots)[i]? = some (some a)) :
+    segOffset init slots (i + 1) = .ok ((alignNat (a + t.len) s.seg.align : Nat) - (init : Int)) := by
+  exact Bimg.offset_dynamic' init slots i t s a ht hs hp ha
+
+/-! ## 4. Export: placement, gaps, no overwrite
+
+`Ctx d init raws` (Proofs/Bimg.lean): `descOK d`, one (optional) raw block per table entry, `init` is 0 or a static offset
+of the table (what the setter can answer), every supplied static segment ends at or before the next static offset of
+the table (`Fits`: "payload sizes up to the next segment's offset"), and at least one segment is present. -/
+
+/-- the export succeeds and has exactly the reported length -/
+theorem export_ok (d : Desc) (init : Nat) (raws : List (Option Bytes)) (h : Ctx d init raws) :
+    ∃ b, exportImg d init raws = .ok b ∧ imageLen init (mkSlots d.segs raws) = .ok b.length := by
+  exact Bimg.export_ok' d init raws h
+
+/-- each supplied segment's bytes appear unchanged at its offset -/
+theorem placed (d : Desc) (init : Nat) (raws : List (Option Bytes)) (h : Ctx d init raws) (b : Bytes)
+    (hb : exportImg d init raws = .ok b) (i : Nat) (s : Slot) (o : Int)
+    (hs : (mkSlots d.segs raws)[i]? = some s) (hp : s.present init = true)
+    (ho : segOffset init (mkSlots d.segs raws) i = .ok o) :
+    0 ≤ o ∧ (b.drop o.toNat).take s.len = s.bytes := by
+  exact Bimg.placed' d init raws h b hb i s o hs hp ho
+
+/-- supplied segments do not overwrite one another: in table order each ends at or before the start of the next -/
+theorem no_overwrite (d : Desc) (init : Nat) (raws : List (Option Bytes)) (h : Ctx d init raws)
+    (i j : Nat) (s t : Slot) (oi oj : Int) (hij : i < j)
+    (hs : (mkSlots d.segs raws)[i]? = some s) (ht : (mkSlots d.segs raws)[j]? = some t)
+    (hps : s.present init = true) (hpt : t.present init = true)
+    (hoi : segOffset init (mkSlots d.segs raws) i = .ok oi) (hoj : segOffset init (mkSlots d.segs raws) j = .ok oj) :
+    oi + s.len ≤ oj := by
+  exact Bimg.no_overwrite' d init raws h i j s t oi oj hij hs ht hps hpt hoi hoj
+
+/-- every byte outside the supplied segments holds the device's fill pattern -/
+theorem gaps_pattern (d : Desc) (init : Nat) (raws : List (Option Bytes)) (h : Ctx d init raws) (b : Bytes)
+    (hb : exportImg d init raws = .ok b) (k : Nat) (hk : k < b.length)
+    (hfree : ∀ i s o, (mkSlots d.segs raws)[i]? = some s → s.present init = true →
+      segOffset init (mkSlots d.segs raws) i = .ok o → ¬ (o ≤ (k : Int) ∧ (k : Int) < o + s.len)) :
+    b[k]? = some (if d.pattern = .ones then 0xFF else 0x00) := by
+  exact Bimg.gaps_pattern' d init raws h b hb k hk hfree
+
+/-- the image that starts at a later init offset is the full image without its first `init` bytes (the excluded
+    segments simply are not there) -/
+theorem export_init_drop (d : Desc) (init : Nat) (raws : List (Option Bytes)) (h : Ctx d init raws) (b0 : Bytes)
+    (h0 : exportImg d 0 raws = .ok b0) :
+    exportImg d init raws = .ok (b0.drop init) := by
+  exact Bimg.export_init_drop' d init raws h b0 h0
+
+/-! ## 5. Parse
+
+`Delimit ext fcbSup init slots`: every supplied, non-excluded segment's bytes are accepted by the segment's parser and
+delimit themselves - `parseSeg … (bytes ++ rest) = .present bytes` for every `rest` (for the "whole rest" parsers only
+`rest = []`; they are last by `descOK`) - and `find_segment_offset` finds a supplied container at offset 0.
+For the segment kinds whose parser is part of the model this is proved below (`*_delimits`); for the container
+parsers it is the assumption on `Ext`. -/
+
+/-- raw fixed-size segments (key blob, key store, BEE headers): `SIZE` bytes that are not padding delimit themselves -/
+theorem raw_delimits (ext : Ext) (fcbSup : Bool) (s : Seg) (c rest : Bytes) (hp : s.parser = .raw)
+    (hsz : 0 < s.size) (hlen : (c.length : Int) = s.size) (hnp : isPadding s c = false) :
+    parseSeg ext fcbSup s (c ++ rest) = .present c := by
+  exact Bimg.raw_delimits' ext fcbSup s c rest hp hsz hlen hnp
+
+/-- image version words -/
+theorem imageVersion_delimits (ext : Ext) (fcbSup : Bool) (s : Seg) (c rest : Bytes)
+    (hp : s.parser = .imageVersion ∨ s.parser = .imageVersionAp) (hsz : s.size = 4) (hlen : c.length = 4) :
+    parseSeg ext fcbSup s (c ++ rest) = .present c := by
+  exact Bimg.imageVersion_delimits' ext fcbSup s c rest hp hsz hlen
+
+/-- FCB: `SIZE` bytes carrying the tag (plain or byte-swapped) that `FCB.parse` accepts - or, for a family without FCB
+    support, any tagged block that is not padding -/
+theorem fcb_delimits (ext : Ext) (fcbSup : Bool) (s : Seg) (c rest : Bytes) (hp : s.parser = .fcb)
+    (hsz : 4 ≤ s.size) (hlen : (c.length : Int) = s.size)
+    (htag : c.take 4 = BimgTables.fcbTag ∨ c.take 4 = BimgTables.fcbTagSwapped)
+    (hok : fcbSup = true → ext.fcbOk c = true) (hnp : fcbSup = false → isPadding s c = false) :
+    parseSeg ext fcbSup s (c ++ rest) = .present c := by
+  exact Bimg.fcb_delimits' ext fcbSup s c rest hp hsz hlen htag hok hnp
+
+/-- application containers: whatever the external parser accepts with the container's own length -/
+theorem app_delimits (ext : Ext) (fcbSup : Bool) (s : Seg) (c rest : Bytes)
+    (hp : s.parser = .ahab ∨ ((s.parser = .greedy ∨ s.parser = .sb) ∧ rest = [])) (hsz : s.size < 0) (hne : c ≠ [])
+    (hacc : ext.app s.kind (c ++ rest) = some c.length) :
+    parseSeg ext fcbSup s (c ++ rest) = .present c := by
+  exact Bimg.app_delimits' ext fcbSup s c rest hp hsz hne hacc
+
+/-- Parsing the exported image with the init offset it was exported with recovers, for every table entry, exactly the
+    supplied bytes at the offset where they were placed (`expectedFound`: `some (offset, bytes)` for a present segment,
+    `none` for an excluded or absent one) - for the full image (`init = 0`) and for every later init offset.
+    `Supplied`: the application segments and the image-version words are supplied (an absent image-version word is
+    read back as four padding bytes - `load_from_config` always supplies it). -/
+theorem parse_export (ext : Ext) (fcbSup : Bool) (d : Desc) (init : Nat) (raws : List (Option Bytes))
+    (h : Ctx d init raws) (hsup : Supplied init (mkSlots d.segs raws)) (hdel : Delimit ext fcbSup init (mkSlots d.segs raws))
+    (b : Bytes) (hb : exportImg d init raws = .ok b) :
+    walk ext fcbSup init d.segs b = .ok (expectedFound init (mkSlots d.segs raws)) := by
+  exact Bimg.parse_export' ext fcbSup d init raws h hsup hdel b hb
+
+/-- `BootableImage.parse` of a full image answers init offset 0 and the supplied segments -/
+theorem parseAll_full (ext : Ext) (fcbSup : Bool) (d : Desc) (raws : List (Option Bytes))
+    (h : Ctx d 0 raws) (hsup : Supplied 0 (mkSlots d.segs raws)) (hdel : Delimit ext fcbSup 0 (mkSlots d.segs raws))
+    (b : Bytes) (hb : exportImg d 0 raws = .ok b) :
+    parseAll ext fcbSup d.segs b = .ok (0, expectedFound 0 (mkSlots d.segs raws)) := by
+  exact Bimg.parseAll_full' ext fcbSup d raws h hsup hdel b hb
+
+/-- … and of an image that starts at a later INIT segment answers that init offset, provided the trials that come
+    first (the full image, the INIT segments before it) do not accept the shifted bytes.  Without that hypothesis the
+    statement is false on the current code: raw header segments take any bytes and the MBI parser accepts almost
+    anything, see the known finding `C14-later-start-misdetected`. -/
+theorem parseAll_later (ext : Ext) (fcbSup : Bool) (d : Desc) (init : Nat) (raws : List (Option Bytes))
+    (h : Ctx d init raws) (hsup : Supplied init (mkSlots d.segs raws)) (hdel : Delimit ext fcbSup init (mkSlots d.segs raws))
+    (b : Bytes) (hb : exportImg d init raws = .ok b)
+    (pre post : List Int) (hc : initCandidates d.segs = pre ++ (init : Int) :: post)
+    (h0 : trial ext fcbSup d.segs b 0 = none) (hpre : ∀ c ∈ pre, trial ext fcbSup d.segs b c = none) :
+    parseAll ext fcbSup d.segs b = .ok (init, expectedFound init (mkSlots d.segs raws)) := by
+  exact Bimg.parseAll_later' ext fcbSup d init raws h hsup hdel b hb pre post hc h0 hpre
+
+/-! ## 6. Non-vacuity: a concrete row, concrete payloads, a concrete `Ext` -/
+
+/-- toy container format for the examples: `A5 n …` is a container of `n` bytes -/
+def exExt : Ext where
+  app _ data := match data with
+    | 0xA5 :: n :: _ => if n.toNat ≤ data.length ∧ 2 ≤ n.toNat then some n.toNat else none
+    | _ => none
+  find _ data := match data with
+    | 0xA5 :: _ => some 0
+    | _ => none
+  fcbOk _ := true
+  xmcd _ := none
+
+/-- a miniature of the i.MX 9x flexspi_nor row (keyblob 0x0 / fcb 0x400 / primary container set 0x1000 / secondary
+    container set dynamic, 1024-aligned) with small numbers: raw header of 4 bytes at 0, FCB of 8 bytes at 8, primary
+    container at 32, secondary container dynamic with alignment 8 -/
+def exDesc : Desc where
+  pattern := .zeros
+  segs := [
+    { kind := 0, size := 4, align := 1, initSeg := false, bootHeader := true, parser := .raw, extFind := false,
+      ownLen := false, patterns := [.zeros, .ones], pos := some 0 },
+    { kind := 1, size := 8, align := 1, initSeg := true, bootHeader := true, parser := .fcb, extFind := false,
+      ownLen := false, patterns := [.zeros, .ones], pos := some 8 },
+    { kind := 12, size := -1, align := 1, initSeg := true, bootHeader := false, parser := .ahab, extFind := true,
+      ownLen := true, patterns := [.zeros, .ones], pos := some 32 },
+    { kind := 13, size := -1, align := 8, initSeg := false, bootHeader := false, parser := .ahab, extFind := true,
+      ownLen := true, patterns := [.zeros, .ones], pos := none }]
+
+def exKeyblob : Bytes := [7, 7, 7, 7]
+def exFcb : Bytes := BimgTables.fcbTag ++ [9, 9, 9, 9]
+def exRaws : List (Option Bytes) := [some exKeyblob, some exFcb, some [0xA5, 5, 1, 2, 3], some [0xA5, 3, 8]]
+def exRaws2 : List (Option Bytes) := [none, some exFcb, some [0xA5, 5, 1, 2, 3], none]
+
+example : descOK exDesc = true := by decide
+/-- the real rows resolve to descriptions of the same shape, e.g. the i.MX 9x flexspi_nor layout -/
+example : (resolve ⟨[(0, 0), (1, 1024), (12, 4096), (13, -1)], "zeros"⟩).any
+    (fun d => d.segs.map (·.pos) == [some 0, some 1024, some 4096, none] && descOK d) = true := by decide +kernel
+example : (List.range 4).map (segOffset 0 (mkSlots exDesc.segs exRaws)) = [.ok 0, .ok 8, .ok 32, .ok 40] := by decide
+example : (List.range 4).map (segOffset 8 (mkSlots exDesc.segs exRaws)) = [.error .spsdk, .ok 0, .ok 24, .ok 32] := by
+  decide
+example : setInit exDesc.segs 1 = .ok 8 ∧ setInit exDesc.segs 9 = .ok 32 ∧ setInit exDesc.segs 33 = .error .spsdk ∧
+    setInit exDesc.segs (-1) = .error .spsdk := by decide
+example : exportImg exDesc 0 exRaws2 =
+    .ok ([0, 0, 0, 0, 0, 0, 0, 0] ++ exFcb ++ List.replicate 16 0 ++ [0xA5, 5, 1, 2, 3]) := by decide +kernel
+example : (exportImg exDesc 0 exRaws).toOption.map List.length = some 43 := by decide +kernel
+example : Ctx exDesc 8 exRaws :=
+  ⟨by decide, by decide, by decide, by decide, ⟨⟨exDesc.segs[1], some exFcb⟩, by decide, by decide⟩⟩
+
+/-- export, then `_parse` with the same init offset gives back what was supplied -/
+def exWalkTrip (init : Nat) (raws : List (Option Bytes)) : Bool :=
+  match exportImg exDesc init raws with
+  | .ok b => decide (walk exExt false init exDesc.segs b = .ok (expectedFound init (mkSlots exDesc.segs raws)))
+  | .error _ => false
+/-- … and so does `parse` (all trials) -/
+def exParseTrip (init : Nat) (raws : List (Option Bytes)) : Bool :=
+  match exportImg exDesc init raws with
+  | .ok b => decide (parseAll exExt false exDesc.segs b = .ok (init, expectedFound init (mkSlots exDesc.segs raws)))
+  | .error _ => false
+example : ∀ init ∈ [0, 8, 32], ∀ raws ∈ [exRaws, exRaws2], exWalkTrip init raws = true := by decide +kernel
+example : ∀ p ∈ [(0, exRaws), (0, exRaws2), (8, exRaws2), (32, exRaws), (32, exRaws2)],
+    exParseTrip p.1 p.2 = true := by decide +kernel
+/-- the hypothesis of `parseAll_later` is needed: the image that starts at the FCB, read as a full image, shows the FCB
+    bytes where the (unvalidated) raw header is expected and the secondary container where the primary one is expected -
+    the full-image trial comes first and wins (cf. known finding `C14-later-start-misdetected`) -/
+example : (match exportImg exDesc 8 exRaws with
+    | .ok b => decide (parseAll exExt false exDesc.segs b =
+        .ok (0, [some (0, exFcb.take 4), none, some (32, [0xA5, 3, 8]), none]))
+    | .error _ => false) = true := by decide +kernel
+example : expectedFound 8 (mkSlots exDesc.segs exRaws) =
+    [none, some (0, exFcb), some (24, [0xA5, 5, 1, 2, 3]), some (32, [0xA5, 3, 8])] := by decide +kernel
 
 end SpsdkVerif.C14
